@@ -132,6 +132,11 @@ func (w *writer) Message() MessageWriter {
 func (w *writer) Free() {
 	w.close()
 
+	// The state is already released after an error or a previous Free.
+	if w.writerState == nil {
+		return
+	}
+
 	if !w.releaseState && !w.releaseWriter {
 		w.free()
 	}
